@@ -187,7 +187,7 @@ func errResultIndex(fn *ssa.Function) int {
 func Returns(fn *ssa.Function) []*ssa.Return {
 	var out []*ssa.Return
 	for _, b := range fn.Blocks {
-		if len(b.Instrs) == 0 {
+		if len(b.Instrs) == 0 || b == fn.Recover {
 			continue
 		}
 		if r, ok := b.Instrs[len(b.Instrs)-1].(*ssa.Return); ok {
@@ -385,7 +385,21 @@ func ClassifyReturn(ret *ssa.Return) ExitKind {
 	if k < 0 || k >= len(ret.Results) {
 		return ExitSuccess
 	}
-	return ClassifyErrValue(ret.Results[k], ret.Block(), 0)
+	return ClassifyErrValue(ReturnValue(ret, k), ret.Block(), 0)
+}
+
+// ReturnValue resolves result #i of a return through the defer-spill idiom
+// (*cell = v; rundefers; t = *cell; return t) to the value stored in the same block.
+func ReturnValue(ret *ssa.Return, i int) ssa.Value {
+	v := ret.Results[i]
+	if u, ok := v.(*ssa.UnOp); ok && u.Op == token.MUL {
+		if al, ok := u.X.(*ssa.Alloc); ok {
+			if st := lastStoreBefore(al, u); st != nil {
+				return st.Val
+			}
+		}
+	}
+	return v
 }
 
 // SuccessExits returns the returns that are (or may be) success exits.
